@@ -72,6 +72,9 @@ impl Acc {
 
 pub const CHUNK: u64 = 64;
 
+/// panics of the code under test caught inside trials since the last record_cell: (count, first messages)
+pub static TRIAL_PANICS: std::sync::Mutex<(u64, Vec<String>)> = std::sync::Mutex::new((0, Vec::new()));
+
 /// Runs `n` independent trials in parallel. Trial t of chunk c uses a generator derived from (seed, c) only,
 /// so the result does not depend on the thread schedule. `f` fills `out` (length nstat) for one trial.
 pub fn run_trials<F>(seed: u64, n: u64, nstat: usize, f: F) -> Vec<Acc>
@@ -90,9 +93,28 @@ where
             let lo = c * chunk;
             let hi = ((c + 1) * chunk).min(n);
             for _ in lo..hi {
-                f(&mut rng, &mut out);
-                for i in 0..nstat {
-                    accs[i].push(out[i]);
+                // a panic of the code under test inside a trial is recorded (and reported by record_cell), not propagated
+                let r = std::panic::catch_unwind(std::panic::AssertUnwindSafe(|| f(&mut rng, &mut out)));
+                match r {
+                    Ok(()) => {
+                        for i in 0..nstat {
+                            accs[i].push(out[i]);
+                        }
+                    }
+                    Err(e) => {
+                        let msg = if let Some(s) = e.downcast_ref::<&str>() {
+                            s.to_string()
+                        } else if let Some(s) = e.downcast_ref::<String>() {
+                            s.clone()
+                        } else {
+                            "panic".to_string()
+                        };
+                        let mut p = TRIAL_PANICS.lock().unwrap();
+                        p.0 += 1;
+                        if p.1.len() < 3 {
+                            p.1.push(msg);
+                        }
+                    }
                 }
             }
             accs
@@ -288,6 +310,14 @@ pub fn results_json(rs: &[StatResult]) -> Value {
 /// record the result of a staged cell into the report; returns true if all held
 pub fn record_cell(rep: &mut Report, key_prefix: &str, cell: &str, rs: &[StatResult], trials: u64, case: Value) -> bool {
     let mut ok = true;
+    {
+        let mut p = TRIAL_PANICS.lock().unwrap();
+        if p.0 > 0 {
+            ok = false;
+            rep.violation(&format!("{}/panic", key_prefix), cell, format!("the code under test panicked in {} trial(s) of this cell: {}", p.0, p.1.join(" | ")), case.clone());
+            *p = (0, Vec::new());
+        }
+    }
     for r in rs {
         match r.verdict {
             Verdict::Held => {}
